@@ -1,4 +1,4 @@
-import PepperProofs.ConstraintGenSeeds
+import PepperProofs.ConstraintGenLoad
 /-!
 # C15 — over-constrained specifications are reported, not passed on
 
@@ -50,5 +50,99 @@ theorem no_other_error {tbl : CodeTable} (hl : tbl.lawful = true) {mode : Layout
     getConstraintsT tbl mode spec ≠ .error .layout := by
   obtain ⟨_, h | h | ⟨a, h⟩⟩ := getConstraintsT_spec hl ok hs hb <;>
     (rw [h.1]; exact ⟨(by simp), (by simp), (by simp)⟩)
+
+/-- **Second sentence of C15, strand layout: a satisfiable specification is never rejected for being
+    over-constrained.**  If a satisfying assignment of `Pil.denote spec` exists, then (after the seeding of the
+    strand layout) `get_constraints` does not fail with the `ValueError` of `propagate_templates`.  The proof
+    transports the assignment to the seeded graph along the denotation of nodes (`denS`): every seeded `eq` link
+    joins nodes whose nucleotides the design forces equal, every `wc` link nodes forced complementary
+    (soundness of the seeding, `seeds_sound_strand`), and every node's template allows what the design allows for
+    its nucleotide. -/
+theorem satisfiable_not_rejected_strand {stmts : List Stmt} {spec : Spec}
+    (hload : Pil.load Generated.nupackTable stmts {} = .ok spec) {s : Seeds} {c : Cons}
+    (hs : seeds .strand spec = .ok s) (hb : build s = .ok c)
+    (hsat : Satisfiable Generated.pilTable (Pil.denote spec)) :
+    getConstraints .strand spec ≠ .error .overconstrained := by
+  intro e
+  have wf := load_wf hload
+  have ok := load_specCodes hload
+  exact (error_iff_graph_unsat pilLawful ok hs hb).1 e (graphSat_of_satisfiable_strand wf ok pil_N.2 hs hb hsat)
+
+/-- Every document the reader accepts is well formed (`SpecWF`: names resolve to the objects that were defined,
+    lengths and nucleotides of super-sequences and strands are those of their items, structures refer to defined
+    strands and carry the bonds of their dot-paren string) and only uses codes of the table. -/
+theorem loaded_wellformed {stmts : List Stmt} {spec : Spec}
+    (hload : Pil.load Generated.nupackTable stmts {} = .ok spec) :
+    SpecWF spec ∧ SpecCodes Generated.pilTable spec := ⟨load_wf hload, load_specCodes hload⟩
+
+/-- The full statement of the property for the model (not yet a theorem in the direction "unsatisfiable ⇒
+    reported" and for the structure layout; that direction needs the completeness half of the simulation: every
+    semantic link and every pair of nodes with the same nucleotide is connected in the seeded graph).  It is the
+    statement the correspondence and the oracle check on every sampled document. -/
+def error_iff_unsat_statement : Prop :=
+  ∀ (stmts : List Stmt) (spec : Spec) (mode : Layout),
+    Pil.load Generated.nupackTable stmts {} = .ok spec →
+    (mode = .struct → ∀ o ∈ spec.strands, o.len ≠ 0 → ∃ so ∈ spec.structs, o.name ∈ so.strands) →
+    (getConstraints mode spec = .error .overconstrained ↔ ¬ Satisfiable Generated.pilTable (Pil.denote spec))
+
+
+/-! ### non-vacuity: concrete small documents -/
+
+/-- `get_constraints` on a statement list as the reader hands it over -/
+def run (mode : Layout) (l : List Stmt) : Except ConstraintGen.Err Arrays :=
+  match Pil.load Generated.nupackTable l {} with
+  | .ok s => getConstraints mode s
+  | .error _ => .error .assertion
+
+/-- the hypotheses "the seeding succeeds" of the theorems hold on a document -/
+def seeded (mode : Layout) (l : List Stmt) : Bool :=
+  match Pil.load Generated.nupackTable l {} with
+  | .ok s => (match seeds mode s with
+    | .ok sd => (match build sd with | .ok _ => true | .error _ => false)
+    | .error _ => false)
+  | .error _ => false
+
+/-- a duplex: `A = a`, `B = a*`, fully paired; the `S` of the template shows up complemented (`S`) on the other strand -/
+def duplex : List Stmt := [
+  .seq "a" "NNS".toList, .strand "A" false ["a"], .strand "B" false ["a*"],
+  .struct "D" (some "1nt") ["A", "B"] "(((+)))".toList ]
+
+/-- a hairpin pairing a domain of odd length with itself: the middle position is its own partner -/
+def hairpin : List Stmt := [
+  .seq "a" "NNNNN".toList, .strand "A" false ["a", "a"], .struct "H" (some "1nt") ["A"] "((((()))))".toList ]
+
+/-- `D` (AGT) meets `V` (ACG) through an `equal` line: the common part is `R` (AG) -/
+def dv : List Stmt := [
+  .seq "a" "DDD".toList, .seq "b" "VVV".toList, .strand "A" false ["a", "b"],
+  .struct "S" none ["A"] "......".toList, .equal ["a", "b"] ]
+
+def okIs (r : Except ConstraintGen.Err Arrays) (a : Arrays) : Bool :=
+  match r with | .ok b => b == a | .error _ => false
+
+def errIs (r : Except ConstraintGen.Err Arrays) (e : ConstraintGen.Err) : Bool :=
+  match r with | .ok _ => false | .error e' => e' == e
+
+example : seeded .strand hairpin = true ∧ seeded .strand duplex = true ∧ seeded .strand dv = true := by decide +kernel
+
+/-- the self-pairing hairpin is reported in both layouts -/
+example : errIs (run .strand hairpin) .overconstrained = true ∧ errIs (run .struct hairpin) .overconstrained = true := by
+  decide +kernel
+
+/-- and the specification side agrees: it is unsatisfiable, the duplex and the `D`/`V` meeting are satisfiable -/
+example : (match Pil.load Generated.nupackTable hairpin {} with
+      | .ok s => satisfiableB Generated.pilTable (Pil.denote s) | .error _ => true) = false ∧
+    (match Pil.load Generated.nupackTable duplex {} with
+      | .ok s => satisfiableB Generated.pilTable (Pil.denote s) | .error _ => false) = true ∧
+    (match Pil.load Generated.nupackTable dv {} with
+      | .ok s => satisfiableB Generated.pilTable (Pil.denote s) | .error _ => false) = true := by decide +kernel
+
+/-- a satisfiable meeting of `D` and `V` is not an error: the class gets the code `R` -/
+example : okIs (run .strand dv)
+    ([some 0, some 1, some 2, some 0, some 1, some 2], [none, none, none, none, none, none],
+     [some 'R', some 'R', some 'R', some 'R', some 'R', some 'R']) = true := by decide +kernel
+
+/-- a direct template conflict over one `equal` link is reported -/
+example : errIs (run .strand [.seq "a" "A".toList, .seq "b" "C".toList, .strand "X" false ["a", "b"],
+    .struct "S" none ["X"] "..".toList, .equal ["a", "b"]]) .overconstrained = true := by decide +kernel
 
 end Pepper.C15
